@@ -297,6 +297,10 @@ def capture_stdout():
 # one shard (runs in a worker process)
 # ----------------------------------------------------------------------------
 
+class _BudgetStop(KeyboardInterrupt):
+    """Raised inside the property when the shard's wall budget is exhausted before any failure was seen."""
+
+
 def run_shard(module_name, sub_name, shard, tier, seed):
     t0 = time.time()
     out = {'sub': sub_name, 'shard': shard, 'evaluations': 0, 'cases': 0, 'nt_hashes': [],
@@ -321,8 +325,8 @@ def run_shard(module_name, sub_name, shard, tier, seed):
 
         def one(case):
             if time.time() - t0 > budget and state['last_fail'] is None:
-                out['budget_hit'] = True      # remaining examples are skipped (inconclusive); never while shrinking
-                return
+                out['budget_hit'] = True      # remaining examples are not generated (inconclusive); never while shrinking
+                raise _BudgetStop()           # a KeyboardInterrupt subclass: Hypothesis lets it propagate unchanged
             res = run_case(sub, case)
             out['cases'] += 1
             out['evaluations'] += int(res.n_eval)
@@ -352,7 +356,7 @@ def run_shard(module_name, sub_name, shard, tier, seed):
                 for case in sub.explicit:
                     try:
                         one(case)
-                    except _Violation:
+                    except (_Violation, _BudgetStop):
                         break
             if state['last_fail'] is None:
                 phases = [Phase.generate, Phase.target, Phase.shrink]
@@ -364,6 +368,8 @@ def run_shard(module_name, sub_name, shard, tier, seed):
                 try:
                     test()
                 except _Violation:
+                    pass
+                except _BudgetStop:
                     pass
                 except BaseException as e:      # noqa
                     # Hypothesis reports a failure that did not reproduce while shrinking as Flaky; the last failing case
